@@ -184,7 +184,9 @@ pub fn new_mux(p: &MuxParams) -> (Mux, hx::MuxEnv) {
         connection_timeout: None,
         chunk_size: p.remote_chunk,
         port_receive_buffer: p.remote_buffer,
-        connect_queue: 1,
+        // deliberately different from the local connect_queue (1): the listener queues must be sized by
+        // what THIS endpoint advertised, the connect-request credits by what the peer advertised
+        connect_queue: 3,
     };
     hx::mux_new::<NullSink, NullStream>(cfg, remote, p.remote_version, 2)
 }
@@ -274,3 +276,4 @@ pub fn rx_pop_raw(rx: &mut tokio::sync::mpsc::UnboundedReceiver<crate::chmux::ve
 pub fn rx_pop(rx: &mut crate::chmux::Receiver) -> RxItem {
     rx_pop_raw(hr::receiver_queue(rx))
 }
+
